@@ -108,6 +108,8 @@ pub struct GenParams {
     pub exact: bool,
     /// upper bound on the number of main-segment assertions (0 = default 6)
     pub max_assertions: usize,
+    /// periodic cycles only from the three longest admissible lengths (n, n/2, n/4)
+    pub long_cycles: bool,
 }
 
 impl Spec {
@@ -237,7 +239,7 @@ fn gen_spec_once(rng: &mut Rng, field: FieldSpec, gp: &GenParams) -> Spec {
     let nper = if gp.periodic { rng.range(1, 3) } else { 0 };
     let periodic: Vec<Vec<u128>> = (0..nper)
         .map(|_| {
-            let c = 1usize << rng.range(1, gp.log_n as usize);
+            let c = 1usize << if gp.long_cycles { rng.range((gp.log_n as usize).saturating_sub(2).max(1), gp.log_n as usize) } else { rng.range(1, gp.log_n as usize) };
             (0..c).map(|_| rng.below128(p)).collect()
         })
         .collect();
